@@ -15,7 +15,7 @@ META = {
                   'xrspatial.convolution._get_distance', 'xrspatial.convolution._to_meters', 'xrspatial.convolution.calc_cellsize'],
     'bounds': {'quick': 'metrics: all point pairs / triples symbolic reals (great-circle: lon in [-180,180], lat in [-90,90], and symbolic out-of-range values for the rejection claim; the symmetry / bound claims additionally case-split into antimeridian-west, antimeridian-east, interior and pole regions); '
                         'kernels: radius in {1, 2, 2.5, "3", "0.002km"}, cell sizes symbolic with radius/cellsize < 4 (half-widths 0..3 per axis, concretised by the solver); '
-                        'annulus inner radius in {0.5, 1} x outer {2, 3}; NOT symbolic: six (radius, cell size) pairs whose kernels have cells exactly on the ellipse (half-widths 5, 13, 17, 25, 13x26); unit table: every key, symbolic magnitude; distance strings: an enumerated list of well- and mal-formed strings',
+                        'annulus inner radius in {0.5, 1} x outer {2, 3}; NOT symbolic: six (radius, cell size) pairs whose kernels have cells exactly on the ellipse (half-widths 5, 13, 17, 25, 13x26) and two pairs with decimal cell sizes (0.1 x 0.25 radius 1, 0.3 x 0.1 radius 0.9) where float true division and float floor division give different half-widths; unit table: every key, symbolic magnitude; distance strings: an enumerated list of well- and mal-formed strings',
                'thorough': 'additionally: circle kernels with half-widths up to 6 per axis (radii 5, "7.5", 6), annuli (4,1) (4,2.5) (5,3) with half-widths up to 5, six more concrete on-the-circle kernels (half-widths 29, 37, 50x25, 41, 41, 65), great-circle symmetry in the antipodal and equatorial regions'},
     'stubs': ['libm sin/cos/asin/sqrt Ackermannised (range, sign on (0,pi), odd/even, sqrt zero / exact)', 'numba.jit = identity'],
     'outside': ['triangle inequality of the great-circle distance (needs spherical trigonometry that is not derivable from the first-order libm axioms)',
